@@ -516,25 +516,51 @@ def r112_notify_dispatch(ctx):
         if persistent:
             cases['end'] = 'end_observations'
             cases['native'] = 'forward-native'
+        # the statistic's own data event is a member of the accepted set from construction on when the constructor puts it there and nothing in
+        # the class ever takes a member out: then a native event also passes the membership test
+        native_member = False
+        if persistent:
+            init_ = prog.method(c, '__init__', inherited=False)
+            sets_ = [a for a in walk_shallow(init_) if isinstance(a, (ast.Assign, ast.AnnAssign)) and getattr(a, 'value', None) is not None
+                     and any(is_self_attr(t, '_event_types') for t in (a.targets if isinstance(a, ast.Assign) else [a.target]))]
+            shrinks = any(isinstance(x, ast.Call) and isinstance(x.func, ast.Attribute) and is_self_attr(x.func.value, '_event_types')
+                          and x.func.attr in ('remove', 'discard', 'clear', 'pop', 'difference_update', 'intersection_update', 'symmetric_difference_update')
+                          or isinstance(x, ast.AugAssign) and is_self_attr(x.target, '_event_types') and not isinstance(x.op, ast.BitOr)
+                          for k_ in prog.mro(c) if k_ in prog.classes for m_ in prog.classes[k_].methods.values() for x in ast.walk(m_))
+            rebinds = sum(1 for k_ in prog.mro(c) if k_ in prog.classes for m_ in prog.classes[k_].methods.values() for x in ast.walk(m_)
+                          if isinstance(x, ast.Attribute) and isinstance(x.ctx, ast.Store) and x.attr == '_event_types' and is_self_attr(x))
+            native_member = bool(sets_) and isinstance(sets_[-1].value, ast.Set) and 'StatEvents.TIMESTAMP_DATA_EVENT' in [unparse(e_) for e_ in sets_[-1].value.elts] \
+                and not shrinks and rebinds == len(sets_)
         for case, expected in cases.items():
-            env = {('bool', f'{ev}.event_type in self._event_types'): case == 'data',
+            env = {('bool', f'{ev}.event_type in self._event_types'): case == 'data' or (case == 'native' and native_member),
                    ('ord', f'{ev}.event_type', 'ReplicationInterface.WARMUP_EVENT'): 'eq' if case == 'warmup' else 'lt',
                    ('ord', f'{ev}.event_type', 'ReplicationInterface.END_REPLICATION_EVENT'): 'eq' if case == 'end' else 'lt',
                    ('ord', f'{ev}.event_type', 'StatEvents.TIMESTAMP_DATA_EVENT'): 'eq' if case == 'native' else 'lt'}
             ge = GuardEval(prog, c, env)
             acts = []
 
+            local = {}          # local name -> the expression it stands for (over the parameter as it came in)
+
+            def subst(e):
+                from .effects import Subst as _Subst
+                import copy as _copy
+                return ast.fix_missing_locations(_Subst(local).visit(_copy.deepcopy(e))) if local else e
+
             def walk(stmts):
                 """collects the actions of the path chosen by the event class; True when the path has returned"""
                 for s in stmts:
                     if isinstance(s, ast.If):
-                        v = ge.ev(s.test)
+                        v = ge.ev(subst(s.test))
                         if v is None:
                             acts.append('undetermined:' + short(s.test, 40))
                         elif walk(s.body if v else s.orelse):
                             return True
+                    elif isinstance(s, ast.Assign) and len(s.targets) == 1 and isinstance(s.targets[0], ast.Name) and not any(
+                            isinstance(x, ast.Call) and not (isinstance(x.func, ast.Name) and x.func.id in ('Event', 'TimedEvent')) for x in ast.walk(s.value)):
+                        # a local for part of the event, or the event re-wrapped: followed by substitution
+                        local[s.targets[0].id] = subst(s.value)
                     elif isinstance(s, ast.Expr) and isinstance(s.value, ast.Call):
-                        acts.append(s.value)
+                        acts.append(subst(s.value))
                     elif isinstance(s, ast.Pass):
                         pass
                     elif isinstance(s, ast.Return) and (s.value is None or (isinstance(s.value, ast.Constant) and s.value.value is None)):
